@@ -6,6 +6,7 @@ import (
 	"time"
 
 	"go.mongodb.org/mongo-driver/bson"
+	"go.mongodb.org/mongo-driver/bson/primitive"
 	"go.mongodb.org/mongo-driver/mongo"
 
 	"github.com/256dpi/lungo"
@@ -349,5 +350,95 @@ func TxnFailureScenario(e *Env) {
 		e.Trace.Write(V{"fn": "txn", "hist": e.Hist, "step": e.Step, "what": "commit", "err": err != nil, "storefail": false, "cpre": cpre, "cpost": e.dumpCat(e.Engine.Catalog()), "wpre": wpre, "wpost": wpre})
 		return nil
 	})
+	e.Do(e.Find(ns, d(), d("_id", int32(1)), nil, 0, 0))
+}
+
+// ParkedWriterScenario: plain writers that queue for the writer slot while a session transaction is open must,
+// once the transaction has committed (or aborted), work on the state it published: nothing the transaction
+// committed may be lost and the writer must see it.  Several rounds; the parked call completes only after the
+// session has ended its transaction, whatever the scheduling.
+func ParkedWriterScenario(e *Env) {
+	plainCtx := e.Ctx
+	ns := "d.c1"
+	e.Do(e.InsertMany(ns, []bson.D{d("_id", int32(1), "n", int32(0)), d("_id", int32(2), "n", int32(0))}, true))
+	o := NewObsCache(e)
+	for round := 0; round < 6; round++ {
+		commit := round%3 != 2
+		parked := []Call{
+			e.Update(ns, true, d(), d("$inc", d("n", int32(10))), false, nil),
+			e.InsertOne(ns, d("_id", int32(100+round), "n", int32(-1))),
+			e.Delete(ns, false, d("_id", int32(50+round))),
+			e.FindOneAndUpdate(ns, d("_id", int32(50+round)), d("$set", d("seen", true)), nil, nil, false, true, nil),
+			e.Update(ns, false, d("_id", int32(1)), d("$inc", d("n", int32(1))), false, nil),
+			e.ReplaceOne(ns, d("_id", int32(2)), d("n", int32(round)), false),
+		}[round]
+		e.Client.UseSession(plainCtx, func(sc lungo.ISessionContext) error {
+			sess := sc.(lungo.SessionContext).Session
+			if err := sc.StartTransaction(); err != nil {
+				return err
+			}
+			for _, c := range []Call{e.Update(ns, false, d("_id", int32(1)), d("$inc", d("n", int32(1))), false, nil), e.InsertOne(ns, d("_id", int32(50+round), "n", int32(round)))} {
+				e.View, e.Ctx, e.Actor = func() *lungo.Catalog { return sess.Transaction().Catalog() }, sc, "session"
+				e.Do(c)
+				e.View, e.Ctx, e.Actor = nil, plainCtx, ""
+			}
+			before := e.Engine.Catalog()
+			work := sess.Transaction().Catalog()
+			done := make(chan V, 1)
+			pe := *e // the parked call runs on its own copy of the environment (no trace, plain context)
+			pe.Trace, pe.View, pe.Ctx, pe.Actor = nil, nil, plainCtx, "parked"
+			go func() { done <- pe.RunOnly(parked) }()
+			time.Sleep(60 * time.Millisecond) // let it queue for the writer slot
+			var err error
+			if commit {
+				err = sc.CommitTransaction(sc)
+			} else {
+				err = sc.AbortTransaction(sc)
+			}
+			var res V
+			select {
+			case res = <-done:
+			case <-time.After(20 * time.Second):
+				e.finding("txn-result", "a writer queued behind a session transaction never completed after the transaction ended", V{"op": parked.Op})
+				return nil
+			}
+			if err != nil || res == nil {
+				return nil
+			}
+			mid := before
+			if commit {
+				mid = work // what the commit published
+			}
+			e.EmitCall(o, parked, res, mid, e.Engine.Catalog(), "parked", V{"parked": true})
+			return nil
+		})
+	}
+	e.Do(e.Find(ns, d(), d("_id", int32(1)), nil, 0, 0))
+}
+
+// SnapshotExpiry: snapshots taken before a TTL pass (a read-only transaction, the published catalog) keep their
+// contents when the pass removes documents, and a pass with nothing to remove leaves them alone as well.
+func SnapshotExpiry(e *Env) {
+	ns := "d.c1"
+	now := time.Now()
+	dt := func(t time.Time) primitive.DateTime { return primitive.NewDateTimeFromTime(t) }
+	e.Do(e.CreateIndex(ns, IndexSpec{Key: d("c", int32(1)), Expire: 3600}))
+	e.Do(e.CreateIndex("d.c2", IndexSpec{Key: d("c", int32(1)), Expire: 0}))
+	docs := []bson.D{d("_id", int32(1), "c", dt(now.Add(-48*time.Hour))), d("_id", int32(2), "c", dt(now.Add(time.Hour))), d("_id", int32(3), "c", "x"), d("_id", int32(4), "c", dt(now.Add(-2*time.Hour))),
+		d("_id", int32(5)), d("_id", int32(6), "c", bson.A{dt(now.Add(-3 * time.Hour))})}
+	e.Do(e.InsertMany(ns, docs, true))
+	e.Do(e.InsertMany("d.c2", docs, true))
+	e.Do(e.InsertMany("d.c3", docs, true))
+	txn, err := e.Engine.Begin(e.Ctx, false)
+	if err != nil {
+		return
+	}
+	snap := txn.Catalog()
+	dump := e.dumpCat(snap)
+	for pass := 0; pass < 2; pass++ {
+		e.ExpirePass()
+		e.Step++
+		e.Trace.Write(V{"fn": "snapcheck", "hist": e.Hist, "step": e.Step, "id": 1, "kind": "read-only transaction across a TTL pass", "pre": dump, "post": e.dumpCat(snap)})
+	}
 	e.Do(e.Find(ns, d(), d("_id", int32(1)), nil, 0, 0))
 }
